@@ -19,3 +19,16 @@ impl Ser for u16 {
     open spec fn enc(&self) -> Seq<Tok> { seq![Tok::UInt(*self as u64)] }
     #[verifier::external_body] fn serialize(&self, serializer: &mut Serializer) -> (r: Result<(), CborError>) { unimplemented!() }
 }
+/// a hash type: serializes (its own encoder not under contract here) and exposes its raw bytes
+macro_rules! ser_hash { ($($n:ident),* $(,)?) => { verus!{ $(
+    #[verifier::external_body] pub struct $n { _p: core::marker::PhantomData<u8> }
+    impl Ser for $n {
+        uninterp spec fn enc(&self) -> Seq<Tok>;
+        #[verifier::external_body] fn serialize(&self, serializer: &mut Serializer) -> (r: Result<(), CborError>) { unimplemented!() }
+    }
+    impl $n {
+        pub uninterp spec fn bytes_of(&self) -> Seq<u8>;
+        #[verifier::external_body] pub fn to_bytes(&self) -> (r: Vec<u8>) ensures r@ == self.bytes_of() { unimplemented!() }
+    }
+)* } } }
+ser_hash!(Ed25519KeyHash, ScriptHash);
